@@ -138,11 +138,12 @@ CompactAsMay(S, it) == S.has_compact_as /\ it.kind = "struct" /\ Len(RealFields(
                        /\ Unbox(S, RealFields(it.fields)[1].ty) \in {PrimTree(S, p) : p \in UnsignedPrims}
 C08_ItemOK(reg, S, Root_, path, derives, attrs, it) ==
   LET ps == PathStr(path)
-      mustD == GlobalDerives(S) \cup SpecificDerives(S, ps) \cup UNION {RecDerives(S, r) : r \in MustRoots(S, Root_, path)}
+      \* (after the repair of D18 every registry type that carries the root path is a root: must and may coincide for the recursive part)
+      mustD == GlobalDerives(S) \cup SpecificDerives(S, ps) \cup UNION {RecDerives(S, r) : r \in MayRoots(reg, S, path)}
                \cup (IF CompactAsMust(reg, S, path, it) THEN {CompactAsStr(S)} ELSE {})
       mayD == GlobalDerives(S) \cup SpecificDerives(S, ps) \cup UNION {RecDerives(S, r) : r \in MayRoots(reg, S, path)}
               \cup (IF CompactAsMay(S, it) THEN {CompactAsStr(S)} ELSE {})
-      mustA == GlobalAttrs(S) \cup SpecificAttrs(S, ps) \cup UNION {RecAttrs(S, r) : r \in MustRoots(S, Root_, path)}
+      mustA == GlobalAttrs(S) \cup SpecificAttrs(S, ps) \cup UNION {RecAttrs(S, r) : r \in MayRoots(reg, S, path)}
       mayA == GlobalAttrs(S) \cup SpecificAttrs(S, ps) \cup UNION {RecAttrs(S, r) : r \in MayRoots(reg, S, path)}
   IN mustD \subseteq derives /\ derives \subseteq mayD /\ mustA \subseteq attrs /\ attrs \subseteq mayA
 
